@@ -64,7 +64,10 @@ pub fn classify_panic(msg: &str) -> String {
     } else if m.contains("unwrap()") || m.contains("called `Option::expect") {
         "panic:unwrap".into()
     } else {
-        format!("panic:other:{}", m.replace(' ', "_").replace('\n', "_"))
+        // `assert!(cond, "custom text")`, `panic!("…")`, `expect("…")`: the text is not part of any property, and
+        // maintainers reword it freely — all of these are one class
+        let _ = m;
+        "panic:assert".into()
     }
 }
 
